@@ -264,8 +264,8 @@ var limTemplates = []limTemplate{
 		return "local s = 0 while true do if s > 0 then break end " + stmts(n, "s = s + 1 ") + "end return s"
 	}, want: func(n int) []string { return []string{iv(int64(n))} }},
 	{name: "and-jump-far", gen: func(n int) string {
-		return "local s = 0 local f = function() " + stmts(n, "s = s + 1 ") + "return true end local r = (s ~= 0) and f() return s, r"
-	}, want: func(n int) []string { return []string{"i:0", "false"} }},
+		return "local s, a = 0, 1 local r = (s ~= 0) and (a" + rep(" + a", n-1) + ") return r"
+	}, want: func(n int) []string { return []string{"false"} }},
 	{name: "labels-many", quick: []int{32767, 32768}, gen: func(n int) string {
 		return "local s = 0 goto l" + strconv.Itoa(n) + " " + seq(n, " ", func(k int) string { return fmt.Sprintf("::l%d:: s = s + 1", k) }) + " return s"
 	}, want: func(n int) []string { return []string{"i:1"} }},
@@ -331,13 +331,41 @@ func limitFamilies(tier string) []*core.Family {
 			cases = append(cases, limCase{t, n})
 		}
 	}
+	// boundary sweep: jump distances around 2^15 and 2^16 instructions for
+	// statement sizes of 1..4 instructions
+	sweepT := map[string]bool{"if-body": true, "goto-forward": true, "goto-backward": true, "loop-body-while": true,
+		"break-far": true, "and-jump-far": true, "labels-many": true, "add-chain": true}
+	var sweepNs []int
+	for _, b := range []int{32768, 65536} {
+		for d := 1; d <= 4; d++ {
+			for w := -1; w <= 1; w++ {
+				if tier == "thorough" || (b == 32768 && (d == 2 || d == 3) && w >= 0) {
+					sweepNs = append(sweepNs, b/d+w)
+				}
+			}
+		}
+	}
+	have := map[string]bool{}
+	for _, c := range cases {
+		have[fmt.Sprintf("%s/%d", c.t.name, c.n)] = true
+	}
+	for i := range limTemplates {
+		t := &limTemplates[i]
+		if sweepT[t.name] {
+			for _, n := range sweepNs {
+				if !have[fmt.Sprintf("%s/%d", t.name, n)] {
+					cases = append(cases, limCase{t, n})
+				}
+			}
+		}
+	}
 	const name = "c-limit"
 	execFuncs[name] = func(i uint64) runRes {
 		c := cases[i]
 		return fromObs(host.Run(c.t.gen(c.n), host.Opts{}))
 	}
 	return []*core.Family{{
-		Name: name, Size: uint64(len(cases)), HangSeconds: 400,
+		Name: name, Size: uint64(len(cases)), HangSeconds: 3600,
 		Show: func(i uint64) string {
 			c := cases[i]
 			src := c.t.gen(c.n)
@@ -348,7 +376,7 @@ func limitFamilies(tier string) []*core.Family {
 		},
 		Run: func(i uint64) core.Outcome {
 			c := cases[i]
-			to := 120 * time.Second
+			to := 150 * time.Second
 			r := remote(name, i, to)
 			return judge(name, fmt.Sprintf("%s N=%d", c.t.name, c.n), false, r, c.t.want(c.n), c.t.rtErrOK)
 		},
